@@ -1,3 +1,5 @@
+//go:build verif && (c07 || allprops)
+
 package main
 
 import (
